@@ -600,10 +600,20 @@ static void runTeardownBatch(uint64_t seed, uint64_t idx, vfnet::Pki &pki)
     { std::lock_guard<std::mutex> g(st->m); st->evs.push_back({0, sid, vf::nowNs(), 0, ""}); }
     vf::sleepMs(double(holdUs) / 1000.0); // slow user callback: everything queued behind it waits
   });
-  t->onClose([st](SessionId sid, const TransportErrorInfo &r) { std::lock_guard<std::mutex> g(st->m); st->evs.push_back({1, sid, vf::nowNs(), int(r.code), r.message}); });
+  // a non-instant user onClose (seeded 1-50 ms for the stop kind) keeps the shutdown drain busy after its
+  // last pass over the command queue, while callers keep entering connectSync
+  uint32_t closeUs = destroy ? 0 : uint32_t(rng.range(1000, 50000));
+  t->onClose([st, closeUs](SessionId sid, const TransportErrorInfo &r) {
+    { std::lock_guard<std::mutex> g(st->m); st->evs.push_back({1, sid, vf::nowNs(), int(r.code), r.message}); }
+    if (closeUs) vf::sleepMs(double(closeUs) / 1000.0);
+  });
   t->onData([st](SessionId sid, iora::core::BufferView d, std::chrono::steady_clock::time_point) { std::lock_guard<std::mutex> g(st->m); st->data[sid].append((const char *)d.data(), d.size()); });
   if (!t->start().isOk()) { O.inconclusive("transport start failed"); return; }
   Transport *raw = t.get();
+  std::atomic<bool> stopBegun{false}, stopReturned{false};
+  std::atomic<int> tdMode{0}; // 0 undecided, 1 destroy, 2 stop — decided by the main thread right before teardown
+  std::atomic<uint64_t> burstCalls{0}, burstShut{0}, burstOk{0};
+  std::mutex burstM; std::vector<CallRec> burstRecs;
   uint64_t base = t->getStats().commands;
   std::set<uint64_t> asyncIds;
   for (int i = 0; i < nAsync; i++) { auto r = t->connect("127.0.0.1", tgt->port(), TlsMode::None); if (r.isOk()) asyncIds.insert(r.value()); }
@@ -633,6 +643,33 @@ static void runTeardownBatch(uint64_t seed, uint64_t idx, vfnet::Pki &pki)
       }
       catch (const std::exception &ex) { c.t1 = vf::nowNs(); c.threw = true; c.msg = ex.what(); }
       reg.active = 0;
+      // stop kind: keep ENTERING connectSync from the moment stop() began until it has returned (+2)
+      while (tdMode.load() == 0) vf::sleepMs(0.05);
+      if (tdMode.load() == 2)
+      {
+        vf::Rng r(seed * 977 + idx * 31 + uint64_t(ci));
+        while (!stopBegun.load()) vf::sleepMs(0.05);
+        int after = 2;
+        for (;;)
+        {
+          if (stopReturned.load() && after-- <= 0) break;
+          CallRec b; b.caller = ci; b.timeoutMs = uint32_t(r.range(5, 80));
+          reg.timeoutMs = b.timeoutMs; reg.api = 0; reg.since = vf::nowNs(); reg.active = 1;
+          b.t0 = vf::nowNs();
+          try
+          {
+            ConnectResult res = raw->connectSync("127.0.0.1", port, TlsMode::None, std::chrono::milliseconds(b.timeoutMs));
+            b.t1 = vf::nowNs();
+            if (res.isOk()) { b.ok = true; b.sid = res.value(); }
+            else { b.code = int(res.error().code); b.msg = res.error().message; }
+          }
+          catch (const std::exception &ex) { b.t1 = vf::nowNs(); b.threw = true; b.msg = ex.what(); }
+          reg.active = 0;
+          burstCalls++;
+          { std::lock_guard<std::mutex> g(burstM); burstRecs.push_back(b); }
+          if (r.chance(0.5)) vf::sleepMs(0.02 * double(r.below(10)));
+        }
+      }
     });
   // teardown moment
   bool allEnqueued = false;
@@ -644,13 +681,14 @@ static void runTeardownBatch(uint64_t seed, uint64_t idx, vfnet::Pki &pki)
     uint64_t until = vf::nowNs() + 6000000000ull;
     while (vf::nowNs() < until) { if (t->getStats().commands >= base + uint64_t(nAsync) + uint64_t(nCallers)) { allEnqueued = true; break; } vf::sleepMs(0.05); }
     ReadMode rm; (void)t->getReadMode(0, rm);
-    if (!allEnqueued) destroy = false; // fall back to stop(): the object then outlives every caller
+    if (!allEnqueued) { destroy = false; } // fall back to stop(): the object then outlives every caller
   }
   else vf::sleepMs(double(rng.below(holdUs * uint64_t(nAsync) + 1)) / 1000.0);
   if (rng.chance(0.5)) vf::sleepMs(double(rng.below(holdUs)) / 1000.0);
   uint64_t td0 = vf::nowNs();
+  tdMode = destroy ? 1 : 2;
   if (destroy) { t.reset(); O.obs("teardown_racing_destroyed_with_callers_parked"); }
-  else { t->stop(); O.obs("teardown_racing_stopped"); }
+  else { stopBegun = true; t->stop(); stopReturned = true; O.obs("teardown_racing_stopped"); }
   uint64_t td1 = vf::nowNs();
   for (auto &x : th) x.join();
   { std::lock_guard<std::mutex> g(g_regsM); g_regs = nullptr; }
@@ -672,8 +710,24 @@ static void runTeardownBatch(uint64_t seed, uint64_t idx, vfnet::Pki &pki)
     O.caseSig(vf::fnv(sg));
     O.sample(callJson(scn, c));
   }
-  O.obs("calls", uint64_t(nCallers));
-  O.obs("calls_teardown-racing", uint64_t(nCallers));
+  for (auto &b : burstRecs)
+  {
+    std::string cls = b.threw ? "exception" : b.ok ? "ok" : (b.code == int(TransportError::Unknown) && b.msg == "shutdown") ? "closed-by-shutdown" : errName(b.code);
+    O.obs("teardown_racing_burst_returned_" + cls);
+    if (b.threw) O.viol("C04:exception:teardown-racing", "connectSync threw: " + b.msg, callJson(scn, b));
+    else if (b.ok) okIds.insert(b.sid);
+    else if (!(cls == "ShuttingDown" || cls == "closed-by-shutdown" || cls == "Timeout"))
+      O.viol("C04:unexpected-error:teardown-racing:" + cls, "connectSync entered while stop() was draining returned an error neither the target nor the teardown can produce", callJson(scn, b));
+    double el = double(b.t1 - b.t0) / 1e6;
+    if (el > double(b.timeoutMs) + 500.0 + 0.5 * double(b.timeoutMs) + double(closeUs) / 1000.0 * double(nAsync + nCallers + 2) && g_hb->maxGapNs(b.t0, b.t1) < kStarveNs)
+      suspect(idx, "C04:late-return:teardown-racing:connectSync", "connectSync entered while stop() was draining returned later than timeout + slack", callJson(scn, b));
+    char sg[96];
+    snprintf(sg, sizeof sg, "teardown-racing|burst|%s", cls.c_str());
+    O.caseSig(vf::fnv(sg));
+  }
+  if (!burstRecs.empty()) O.obs("teardown_racing_connectSync_entered_while_stop_drains", burstRecs.size());
+  O.obs("calls", uint64_t(nCallers) + burstRecs.size());
+  O.obs("calls_teardown-racing", uint64_t(nCallers) + burstRecs.size());
   // nothing left behind at the peer
   {
     uint64_t tq = vf::nowNs(), hard = tq + 10000000000ull;
